@@ -64,6 +64,7 @@ var qDefs = []qDef{
 	{"a/", 0, "a/"},
 	{"a/", 1, "a/ where V == 1"},
 	{"", 2, "* where not V == 1"},
+	{"b/", 0, "b/"}, // only used by registerHook(reusing the Hook object of h0, ...)
 }
 
 const (
@@ -82,7 +83,7 @@ const failKey = "a/x"
 // ---------- operations ----------
 
 type op struct {
-	Kind  string `json:"kind"` // sub subq cancel hook hookq unhook put del sec setv get push
+	Kind  string `json:"kind"` // sub subq cancel hook hookq hooko unhook put del sec setv get push
 	Q     int    `json:"q,omitempty"`
 	Priv  int    `json:"priv,omitempty"`
 	Ref   int    `json:"ref,omitempty"`
@@ -107,6 +108,8 @@ func (o op) String() string {
 		return fmt.Sprintf("hook(%s,%s,%s)", qDefs[o.Q].Name, phaseNames[o.Phase], behNames[o.Beh])
 	case "hookq":
 		return fmt.Sprintf("hook(query object of h%d,%s,%s)", o.Ref, phaseNames[o.Phase], behNames[o.Beh])
+	case "hooko":
+		return fmt.Sprintf("hook(%s,Hook object of h%d)", qDefs[o.Q].Name, o.Ref)
 	case "unhook":
 		return fmt.Sprintf("cancelHook(h%d)", o.Ref)
 	case "put":
@@ -215,6 +218,7 @@ type mSub struct {
 type mHook struct {
 	Q, Group, Phase, Beh int
 	Active               bool
+	Obj                  int // the Hook object: index of the registration that created it
 }
 
 type call struct {
@@ -287,13 +291,13 @@ func replaceTag(e entry, phase string, hook int) entry {
 
 // getChain models Controller.Get followed by the permission check of the interface.
 func (m *model) getChain(x *expect, key string, rd ifaceDef) (entry, bool) {
-	for i, h := range m.hooks {
+	for _, h := range m.hooks {
 		if !h.Active || h.Phase&phPreGet == 0 || !matchKey(h.Q, key) {
 			continue
 		}
-		x.calls = append(x.calls, call{i, phPreGet, snap{Key: key}})
+		x.calls = append(x.calls, call{h.Obj, phPreGet, snap{Key: key}})
 		if h.Beh == 2 {
-			x.res, x.vetoHook = "veto", i
+			x.res, x.vetoHook = "veto", h.Obj
 			return entry{}, false
 		}
 	}
@@ -303,17 +307,17 @@ func (m *model) getChain(x *expect, key string, rd ifaceDef) (entry, bool) {
 		return entry{}, false
 	}
 	cur := *e
-	for i, h := range m.hooks {
+	for _, h := range m.hooks {
 		if !h.Active || h.Phase&phPostGet == 0 || !matchRec(h.Q, key, cur) {
 			continue
 		}
-		x.calls = append(x.calls, call{i, phPostGet, cur.snap(key)})
+		x.calls = append(x.calls, call{h.Obj, phPostGet, cur.snap(key)})
 		switch h.Beh {
 		case 2:
-			x.res, x.vetoHook = "veto", i
+			x.res, x.vetoHook = "veto", h.Obj
 			return entry{}, false
 		case 1:
-			cur = replaceTag(cur, "G", i)
+			cur = replaceTag(cur, "G", h.Obj)
 			x.replaced = true
 		}
 	}
@@ -330,17 +334,17 @@ func (m *model) getChain(x *expect, key string, rd ifaceDef) (entry, bool) {
 
 // putChain models Controller.Put: pre-put hooks, storage, notification.
 func (m *model) putChain(x *expect, key string, cur entry) {
-	for i, h := range m.hooks {
+	for _, h := range m.hooks {
 		if !h.Active || h.Phase&phPrePut == 0 || !matchRec(h.Q, key, cur) {
 			continue
 		}
-		x.calls = append(x.calls, call{i, phPrePut, cur.snap(key)})
+		x.calls = append(x.calls, call{h.Obj, phPrePut, cur.snap(key)})
 		switch h.Beh {
 		case 2:
-			x.res, x.vetoHook = "veto", i
+			x.res, x.vetoHook = "veto", h.Obj
 			return
 		case 1:
-			cur = replaceTag(cur, "P", i)
+			cur = replaceTag(cur, "P", h.Obj)
 			x.replaced = true
 		}
 	}
@@ -396,12 +400,18 @@ func (m *model) apply(o op) *expect {
 		m.subs[o.Ref].Active = false
 		x.res = "ok"
 	case "hook":
-		m.hooks = append(m.hooks, &mHook{o.Q, m.groups, o.Phase, o.Beh, true})
+		m.hooks = append(m.hooks, &mHook{o.Q, m.groups, o.Phase, o.Beh, true, len(m.hooks)})
 		m.groups++
 		x.res = "ok"
 	case "hookq":
 		ref := m.hooks[o.Ref]
-		m.hooks = append(m.hooks, &mHook{ref.Q, ref.Group, o.Phase, o.Beh, true})
+		m.hooks = append(m.hooks, &mHook{ref.Q, ref.Group, o.Phase, o.Beh, true, len(m.hooks)})
+		x.res = "ok"
+	case "hooko":
+		// the same Hook object registered once more, with its own query: an independent registration
+		ref := m.hooks[o.Ref]
+		m.hooks = append(m.hooks, &mHook{o.Q, m.groups, ref.Phase, ref.Beh, true, ref.Obj})
+		m.groups++
 		x.res = "ok"
 	case "unhook":
 		m.hooks[o.Ref].Active = false
@@ -479,7 +489,7 @@ func (m *model) canon() string {
 	}
 	sb.WriteString("|H")
 	for _, h := range m.hooks {
-		fmt.Fprintf(&sb, "%d.%d.%d.%d.%v;", h.Q, h.Group, h.Phase, h.Beh, h.Active)
+		fmt.Fprintf(&sb, "%d.%d.%d.%d.%v.%d;", h.Q, h.Group, h.Phase, h.Beh, h.Active, h.Obj)
 	}
 	return sb.String()
 }
@@ -565,6 +575,13 @@ func (m *model) enabled(b *bounds) []op {
 			out = append(out, op{Kind: "hookq", Ref: 0, Phase: phPrePut, Beh: 0})
 			out = append(out, op{Kind: "hookq", Ref: 0, Phase: phPrePut, Beh: 2})
 			out = append(out, op{Kind: "hookq", Ref: 0, Phase: phPostGet, Beh: 1})
+			// the Hook object of h0 registered again with another query
+			for q := 0; q < b.nQ; q++ {
+				if q != m.hooks[0].Q {
+					out = append(out, op{Kind: "hooko", Ref: 0, Q: q})
+				}
+			}
+			out = append(out, op{Kind: "hooko", Ref: 0, Q: 3})
 		}
 	}
 	for i := range m.hooks {
@@ -833,6 +850,14 @@ func (w *world) do(o op) (ob observed) {
 		w.hooks = append(w.hooks, rh)
 		w.hookObj = append(w.hookObj, h)
 		w.hookQ = append(w.hookQ, q)
+	case "hooko":
+		q := w.newQuery(o.Q)
+		h := w.hookObj[o.Ref]
+		rh, err := database.RegisterHook(q, h)
+		ob.err = err
+		w.hooks = append(w.hooks, rh)
+		w.hookObj = append(w.hookObj, h)
+		w.hookQ = append(w.hookQ, q)
 	case "unhook":
 		ob.err = w.hooks[o.Ref].Cancel()
 	case "get":
@@ -936,11 +961,15 @@ func (w *world) private() string {
 		sb.WriteByte(',')
 	}
 	sb.WriteString("h")
-	for _, h := range database.VerifHooks(w.name) {
-		if x, ok := h.(*hk); ok {
-			sb.WriteString(strconv.Itoa(x.id))
-			sb.WriteByte(',')
+	for _, rh := range database.VerifRegisteredHooks(w.name) {
+		idx := -1
+		for i, x := range w.hooks {
+			if x == rh {
+				idx = i
+			}
 		}
+		sb.WriteString(strconv.Itoa(idx))
+		sb.WriteByte(',')
 	}
 	return sb.String()
 }
@@ -1104,7 +1133,7 @@ func runHistory(ctx *vlib.Ctx, cfg config, seedName string, hist []op, verbose b
 	}
 	keys := keysOf(cfg)
 	after := w.raw(keys)
-	sharedSub, sharedHook := false, false
+	sharedSub, sharedHook, sharedObj := false, false, false
 	for step, o := range hist {
 		before := after
 		w.calls = nil
@@ -1116,12 +1145,16 @@ func runHistory(ctx *vlib.Ctx, cfg config, seedName string, hist []op, verbose b
 		// per clause under that family instead of per kind of operation.
 		sharedSub = sharedSub || o.Kind == "subq"
 		sharedHook = sharedHook || o.Kind == "hookq"
+		sharedObj = sharedObj || o.Kind == "hooko"
 		subSite, hookSite := o.Kind, o.Kind
 		if sharedSub {
 			subSite = "two-subscriptions-from-one-query-object"
 		}
 		if sharedHook {
 			hookSite = "two-hooks-from-one-query-object"
+		}
+		if sharedObj {
+			hookSite = "one-hook-object-registered-twice"
 		}
 		if p != nil {
 			ps := o.Kind
@@ -1329,13 +1362,18 @@ func plans(c *vlib.Ctx) []plan {
 
 func main() {
 	vlib.Main("C14", "model_checking", func(c *vlib.Ctx) {
+		// the schedule clauses (writers vs Cancel) are decided by the engine-S part
+		if c.ReplayPart(`"c14s/`, "/verif/build/c14s") {
+			return
+		}
+		defer c.RunPart("/verif/build/c14s")
 		debug.SetGCPercent(400)
 		if err := initSystem(); err != nil {
 			c.EngineError("cannot initialise the database system: %v", err)
 			return
 		}
 		defer os.RemoveAll(rootDir)
-		c.Rule("BFS over histories of {subscribe(query, subscriber privileges), subscribe(reusing the query object of s0), cancel(s_i), registerHook(query, phase, pass|replace|veto), registerHook(reusing the query object of h0), cancelHook(h_i), " +
+		c.Rule("BFS over histories of {subscribe(query, subscriber privileges), subscribe(reusing the query object of s0), cancel(s_i), registerHook(query, phase, pass|replace|veto), registerHook(reusing the query object of h0), registerHook(reusing the Hook object of h0 with another query), cancelHook(h_i), " +
 			"put/delete/MakeSecret/InsertValue/get through interfaces of different privileges, PushUpdate (injected database)} on keys inside/outside the subscribed prefix with values for which the where-condition holds or not and flags none/secret(/crownjewel); " +
 			"each history replayed on a fresh real database (hashmap, bbolt, runtime registry injected) and on a reference (lists of subscriptions and hooks, map of records); after every step feeds are drained, hook calls, result and raw storage compared; " +
 			"states de-duplicated on (reference state, controller's registered subscriptions and hooks, raw storage); deepest level check-only and without subscribe/registerHook as last step (nothing to observe); " +
@@ -1442,7 +1480,7 @@ func explore(c *vlib.Ctx, pi int, pl plan) {
 				// (its effect shows only in later operations): not run at the deepest level.
 				k := 0
 				for _, o := range ops {
-					if o.Kind != "sub" && o.Kind != "subq" && o.Kind != "hook" && o.Kind != "hookq" {
+					if o.Kind != "sub" && o.Kind != "subq" && o.Kind != "hook" && o.Kind != "hookq" && o.Kind != "hooko" {
 						ops[k] = o
 						k++
 					}
